@@ -61,7 +61,9 @@ theorem nanpercentile_mirror (l : List V) (q : Rat) (hq0 : 0 ≤ q) (hq1 : q ≤
     simp only [negL, List.map_cons] at this ⊢
     simp [negV, this]
 
-/-- `_get_percentile_intermediate_result_over_trials` (the `100 - percentile` mirroring). -/
+/-- `_get_percentile_intermediate_result_over_trials`: under MAXIMIZE the source computes the mirror of the
+minimisation case itself (`-np.nanpercentile(-values, percentile)`, repair of F41), so the mirror law holds by
+construction — no appeal to `perc (100 - q) v = -perc q (-v)` (`nanpercentile_mirror`, true over ℚ only). -/
 theorem percentile_over_trials_mirror (vals : List V) (q : Rat) (nMin : Nat)
     (hq0 : 0 ≤ q) (hq1 : q ≤ 100) :
     percentileOverTrials .maximize vals q nMin =
@@ -69,9 +71,7 @@ theorem percentile_over_trials_mirror (vals : List V) (q : Rat) (nMin : Nat)
   unfold percentileOverTrials
   have : (negVL vals).length = vals.length := by simp [negVL]
   rw [this]
-  split
-  · rfl
-  · exact nanpercentile_mirror vals q hq0 hq1
+  split <;> rfl
 
 /-- `PercentilePruner.prune` / `MedianPruner.prune`: same decision in the mirrored study. -/
 theorem percentile_prune_mirror (q : Rat) (nMin : Nat) (cur others : List V)
@@ -576,8 +576,8 @@ def modelled : List (Nat × String × String × String) := [
     "if direction == StudyDirection.MAXIMIZE:\n    return best_intermediate_result < p\nreturn best_intermediate_result > p"),
   (587249821687924554, "optuna/pruners/_percentile.py :: _get_best_intermediate_result_over_steps", "bestIntermediate / best_intermediate_mirror",
     "if direction == StudyDirection.MAXIMIZE:\n    return np.nanmax(values)\nreturn np.nanmin(values)"),
-  (784938568512425080, "optuna/pruners/_percentile.py :: _get_percentile_intermediate_result_over_trials", "percentileOverTrials / percentile_over_trials_mirror",
-    "if direction == StudyDirection.MAXIMIZE:\n    percentile = 100 - percentile\nreturn float(np.nanpercentile(np.array(intermediate_values, dtype=float), percentile))"),
+  (38630033197901168, "optuna/pruners/_percentile.py :: _get_percentile_intermediate_result_over_trials", "percentileOverTrials / percentile_over_trials_mirror",
+    "if direction == StudyDirection.MAXIMIZE:\n    return float(-np.nanpercentile(-values, percentile))\nreturn float(np.nanpercentile(values, percentile))"),
   (961701887983855907, "optuna/pruners/_successive_halving.py :: _is_trial_promotable_to_next_rung", "promotable / promotable_mirror",
     "if study_direction == StudyDirection.MAXIMIZE:\n    return value >= competing_values[-(promotable_idx + 1)]\nreturn value <= competing_values[promotable_idx]"),
   (1003403920123082744, "optuna/pruners/_wilcoxon.py :: WilcoxonPruner.prune", "wilcoxonAlt, avgIsBest / wilcoxon_mirror",
